@@ -207,6 +207,10 @@ let handle (req : sx) : string =
   | L [A "env"; d; g] ->
       (match read_env (opt_of str_of d) (opt_of str_of g) with
        | ImportFails -> "IMPORT_FAILS" | ImportOk (x, y) -> "OK disable=" ^ b x ^ " debug=" ^ b y)
+  | L [A "enabled"; gd; arg] -> b (effective_enabled (bool_of gd) (opt_of bool_of arg))
+  | L [A "orig"; k; scripting; en] ->
+      let k = (match k with A "fn" -> KFunction | A "nt" -> KNamedTuple | A "dc" -> KDataclass | _ -> failwith "kind") in
+      b (returns_original k (bool_of scripting) (bool_of en))
   | L [A "dtype"; dts; l; d] -> b (dtype_accepted (list_of dtok_of dts) (lib_of l) (adtype_of d))
   | _ -> failwith "unknown request"
 
